@@ -308,7 +308,28 @@ func CheckDefault(pc *PathCtx) {
 	ss, sok := S.Underlying().(*types.Struct)
 	_, tok := T.Underlying().(*types.Struct)
 	if !sok || !tok {
-		// non-struct pair: the conversion of the source
+		// non-struct pair: the conversion of the source. With default:update the source is applied on top of FUNC's
+		// value; what that means for a nil slice / map / pointer as source value is not stated: only non-nil source
+		// values are constrained there
+		if u.DefaultUpdate {
+			switch v := src.(type) {
+			case engine.Slice:
+				if v.Nil {
+					pc.ProveLeaves("default", o)
+					return
+				}
+			case engine.Map:
+				if v.M == nil {
+					pc.ProveLeaves("default", o)
+					return
+				}
+			case engine.Pointer:
+				if v.Slot == nil {
+					pc.ProveLeaves("default", o)
+					return
+				}
+			}
+		}
 		o.Match(src, S, got, T, "result")
 		pc.ProveLeaves("default", o)
 		return
